@@ -211,15 +211,16 @@ pub fn gen_case(t: &mut Tape) -> Case {
             let no_deps = t.chance(1, 5);
             let pool: Vec<u8> = if no_deps { vec![2] } else { vec![0, 1] };
             let n = t.range(1, 4);
+            let names = crate::prog::member_names(t, n);
             let mut fns: Vec<F> = vec![];
             for i in 0..n {
                 let f = if i > 0 && t.chance(1, 2) {
                     let mut c = fns[i - 1].clone();
-                    c.name = format!("f{i}");
+                    c.name = names[i].clone();
                     c.tag = format!("F{i}");
                     c
                 } else {
-                    gen_f(t, &format!("f{i}"), &format!("F{i}"), &pool)
+                    gen_f(t, &names[i], &format!("F{i}"), &pool)
                 };
                 fns.push(f);
             }
@@ -242,10 +243,11 @@ pub fn gen_case(t: &mut Tape) -> Case {
         }
         _ => {
             let n = t.range(1, 3);
+            let names = crate::prog::member_names(t, n);
             let mut sigs = vec![];
             let mut fns: Vec<F> = vec![];
             for i in 0..n {
-                let f = gen_f(t, &format!("m{i}"), &format!("M{i}"), &[2]);
+                let f = gen_f(t, &names[i], &format!("M{i}"), &[2]);
                 let mut ps = vec!["&self".to_string()];
                 for p in &f.params {
                     ps.push(format!("{}: {}", p.name, p.vt.ty("T")));
